@@ -11,7 +11,7 @@ META = {
             "4 MiB receive / MaxInt32 send; server: the server option or the default) and the outcome clauses (within the limit: "
             "delivered intact with OK; over the limit: RESOURCE_EXHAUSTED and never transmitted / never handed to the application; "
             "sending counts the encoded size, receiving the wire size or the decompressed size). TLC enumerates every combination "
-            "of {unset, S, L} x3 sources x direction x {unary, stream} x compressor/shape x {eff-1, eff, eff+1} (one MC state per "
+            "of {unset, S, L} (plus rows with a limit H above the 4 MiB default) x3 sources x direction x {unary, stream} x compressor/shape x {eff-1, eff, eff+1} (one MC state per "
             "configuration), checks the getMaxSize-shaped reference against the statement (negative controls: call option "
             "overriding the service config), the enumerated states are executed end to end (real client vs raw HTTP/2 server, raw "
             "HTTP/2 client vs real server, bufconn, raw codec), and TLC judges every recorded (configuration, outcome) row.",
@@ -44,6 +44,7 @@ def run(ctx):
     cases = table(ctx, "SizeLimitsMC.cfg", 0)   # this TLC run is also the exhaustive check of the invariants
     ctx.neg("SizeLimitsMC", "SizeLimitsNeg.cfg", expect="I_EffMin", workers=2)
     ctx.neg("SizeLimitsMC", "SizeLimitsNeg2.cfg", expect="I_RefOutcome", workers=2)
+    ctx.neg("SizeLimitsMC", "SizeLimitsNeg3.cfg", expect="I_EffMin", workers=2)   # default folded into the minimum
     if not ctx.quick():
         cases += table(ctx, "SizeLimitsMC2.cfg", len(cases))
     ctx.cov["behaviours_generated"] += len(cases)
